@@ -34,17 +34,18 @@ Definition is_pitch_letter (c : ascii) : bool := in_chars "abcdefgABCDEFG" c.
 Definition scan_number (l : chars) : option (chars * chars) :=
   match take_while is_digit l with ([], _) => None | (d, r) => Some (d, r) end.
 
-(* duration: number ('%' number)? '.'* (qq | q | p | P)?  ->  duration sub-token texts *)
+(* duration: number ('%' number)? '.'* (qq | q | p | P)?  ->  duration sub-token texts
+   (character tests are written with Ascii.eqb rather than literal patterns: same function, simpler proofs) *)
 Definition scan_duration (l : chars) : option (list string * chars) :=
   match scan_number l with
   | None => None
   | Some (d, r) =>
     let modern : option (chars * chars) :=
       match r with
-      | "%"%char :: r1 => match scan_number r1 with
-                          | Some (d2, r2) => Some ((d ++ "%"%char :: d2)%list, r2)
-                          | None => None end
-      | _ => Some (d, r)
+      | c :: r1 => if Ascii.eqb c "%"
+                   then match scan_number r1 with Some (d2, r2) => Some ((d ++ c :: d2)%list, r2) | None => None end
+                   else Some (d, r)
+      | [] => Some (d, r)
       end in
     match modern with
     | None => None
@@ -52,36 +53,52 @@ Definition scan_duration (l : chars) : option (list string * chars) :=
       let '(dots, r4) := take_while (Ascii.eqb ".") r3 in
       let base := str m :: map (fun _ => ".") dots in
       match r4 with
-      | "q"%char :: "q"%char :: r5 => Some ((base ++ ["qq"])%list, r5)
-      | "q"%char :: r5 => Some ((base ++ ["q"])%list, r5)
-      | "p"%char :: r5 => Some ((base ++ ["p"])%list, r5)
-      | "P"%char :: r5 => Some ((base ++ ["P"])%list, r5)
-      | _ => Some (base, r4)
+      | c1 :: r5 =>
+        if Ascii.eqb c1 "q" then
+          match r5 with
+          | c2 :: r6 => if Ascii.eqb c2 "q" then Some ((base ++ ["qq"])%list, r6) else Some ((base ++ ["q"])%list, r5)
+          | [] => Some ((base ++ ["q"])%list, r5)
+          end
+        else if Ascii.eqb c1 "p" then Some ((base ++ ["p"])%list, r5)
+        else if Ascii.eqb c1 "P" then Some ((base ++ ["P"])%list, r5)
+        else Some (base, r4)
+      | [] => Some (base, r4)
       end
     end
   end.
 
 (* accidental: #{1,3} | -{1,3} | n, then an optional display suffix (yy / YY may be doubled) *)
+Definition scan_acc_core (l : chars) : option (chars * chars) :=
+  match l with
+  | c :: r =>
+    if Ascii.eqb c "#" then let '(a, r') := take_while (Ascii.eqb "#") l in
+                            if Nat.leb (List.length a) 3 then Some (a, r') else None
+    else if Ascii.eqb c "-" then let '(a, r') := take_while (Ascii.eqb "-") l in
+                                 if Nat.leb (List.length a) 3 then Some (a, r') else None
+    else if Ascii.eqb c "n" then Some ([c], r)
+    else Some ([], l)
+  | [] => Some ([], l)
+  end.
+
+Definition scan_acc_display (a r : chars) : chars * chars :=
+  match r with
+  | c :: r2 =>
+    if is_display c then
+      if Ascii.eqb c "y" || Ascii.eqb c "Y" then
+        match r2 with
+        | c2 :: r3 => if Ascii.eqb c2 c then ((a ++ [c; c2])%list, r3) else ((a ++ [c])%list, r2)
+        | [] => ((a ++ [c])%list, r2)
+        end
+      else ((a ++ [c])%list, r2)
+    else (a, r)
+  | [] => (a, r)
+  end.
+
 Definition scan_accidental (l : chars) : option (chars * chars) :=
-  let core : option (chars * chars) :=
-    match l with
-    | "#"%char :: _ => let '(a, r) := take_while (Ascii.eqb "#") l in
-                       if Nat.leb (List.length a) 3 then Some (a, r) else None
-    | "-"%char :: _ => let '(a, r) := take_while (Ascii.eqb "-") l in
-                       if Nat.leb (List.length a) 3 then Some (a, r) else None
-    | "n"%char :: r => Some (["n"%char], r)
-    | _ => Some ([], l)
-    end in
-  match core with
+  match scan_acc_core l with
   | None => None
   | Some ([], r) => Some ([], r)
-  | Some (a, r) =>
-    match r with
-    | "y"%char :: "y"%char :: r2 => Some ((a ++ ["y"; "y"]%char)%list, r2)
-    | "Y"%char :: "Y"%char :: r2 => Some ((a ++ ["Y"; "Y"]%char)%list, r2)
-    | c :: r2 => if is_display c then Some ((a ++ [c])%list, r2) else Some (a, r)
-    | [] => Some (a, r)
-    end
+  | Some (a, r) => Some (scan_acc_display a r)
   end.
 
 (* listener state carried through a chord: shared decoration list, last duration sub-tokens *)
@@ -100,6 +117,21 @@ Definition mk_durs (l : list string) : list subtoken := map (fun e => {| st_enc 
 
 (* one note: D* duration? D* pitch D* accidental? D*.  Returns the text consumed, the new listener state,
    the pitch/duration sub-tokens and the rest of the input. *)
+(* the part of a note after its pitch letters: D* accidental? D* *)
+Definition scan_note_tail (st : lstate) (d1 dtext d2 pitch : chars) (durs : option (list string)) (r4 : chars)
+  : option (chars * lstate * list subtoken * chars) :=
+  let '(d3, r5) := take_while is_note_deco r4 in
+  match scan_accidental r5 with
+  | None => None
+  | Some (acc, r6) =>
+    let '(d4, r7) := take_while is_note_deco r6 in
+    let deco := add_decos (add_decos (add_decos (add_decos (ls_deco st) d1) d2) d3) d4 in
+    let dur' := match durs with Some ds => mk_durs ds | None => ls_dur st end in
+    let pd := (dur' ++ [{| st_enc := str pitch; st_cat := PITCH |}]
+               ++ match acc with [] => [] | _ => [{| st_enc := str acc; st_cat := ALTERATION |}] end)%list in
+    Some ((d1 ++ dtext ++ d2 ++ pitch ++ d3 ++ acc ++ d4)%list, {| ls_deco := deco; ls_dur := dur' |}, pd, r7)
+  end.
+
 Definition scan_note (st : lstate) (l : chars) : option (chars * lstate * list subtoken * chars) :=
   let '(d1, r1) := take_while is_note_deco l in
   let starts_digit := match r1 with c :: _ => is_digit c | [] => false end in
@@ -117,17 +149,7 @@ Definition scan_note (st : lstate) (l : chars) : option (chars * lstate * list s
       let '(pitch, r4) := take_while (Ascii.eqb p) r3 in
       let bad := match r4 with q :: _ => is_pitch_letter q | [] => false end in
       if bad then None else                (* two different pitch letters: a chord without space, outside CKL *)
-      let '(d3, r5) := take_while is_note_deco r4 in
-      match scan_accidental r5 with
-      | None => None
-      | Some (acc, r6) =>
-        let '(d4, r7) := take_while is_note_deco r6 in
-        let deco := add_decos (add_decos (add_decos (add_decos (ls_deco st) d1) d2) d3) d4 in
-        let dur' := match durs with Some ds => mk_durs ds | None => ls_dur st end in
-        let pd := (dur' ++ [{| st_enc := str pitch; st_cat := PITCH |}]
-                   ++ match acc with [] => [] | _ => [{| st_enc := str acc; st_cat := ALTERATION |}] end)%list in
-        Some ((d1 ++ dtext ++ d2 ++ pitch ++ d3 ++ acc ++ d4)%list, {| ls_deco := deco; ls_dur := dur' |}, pd, r7)
-      end
+      scan_note_tail st d1 dtext d2 pitch durs r4
     end
   end.
 
